@@ -1,6 +1,6 @@
 (** * C19 — Ordered maps and sets encode as sorted entry lists and decode by collection. *)
 From SSZ Require Import Base Offsets Types Codec CodecUnfold ListDecFacts LeafIface LeafProof
-     OrderFacts RoundTrip Canon Strict ListView ListViewFacts.
+     OrderFacts RoundTrip Canon Strict ListView ListViewFacts ListViewEnc.
 Open Scope N_scope.
 
 (** A map or set value is its list of entries in strictly ascending key order ([has_ty]). *)
@@ -80,6 +80,13 @@ Theorem C19_decode_by_collection_at_every_depth :
   forall t bs, dec t bs = omap (collect_rec t) (dec (list_view t) bs).
 Proof. exact dec_by_collection. Qed.
 Print Assumptions C19_decode_by_collection_at_every_depth.
+
+(** ... and encoding as entry lists at every depth: a well-typed value (collections strictly ascending, wherever
+    they sit) encodes exactly as the same value read at the entry-list view of the type. *)
+Theorem C19_encode_as_entry_lists_at_every_depth :
+  forall t v, has_ty t v = true -> enc t v = enc (list_view t) v.
+Proof. exact enc_by_entry_list. Qed.
+Print Assumptions C19_encode_as_entry_lists_at_every_depth.
 
 Example C19_nested_example :
   list_view (TMap (TUint 1) (TSet (TUint 2))) = TList (TContainer false [TUint 1; TList (TUint 2)]) /\
